@@ -12,6 +12,7 @@ P = {'id': 'C06',
               'get_fast_unmasked_refuted',
               'hashstr_refines_map',
               'hashstr_counters',
+              'easy_ext_refines_map',
               'remove_loop_is_get_loop',
               'sentinel_unmapped_refuted',
               'tombstone_first_slot_refuted',
